@@ -1,7 +1,7 @@
 (* Request/response interface of the executable model: one S-expression in,
    one out.  Shared by the extracted runner and the in-Coq path. *)
 From InfluxQL Require Import Base.Prelude Base.Sexp Base.Oracles Lex.Token Lex.Reader Lex.Scanner Ast.Ast Ast.SexpAst
-  Val.Duration Parse.ExprTree Parse.Instr Parse.ParseExpr Parse.ParseStmts Ast.Printer Ast.PrinterStmts Parse.Params Ast.Privileges Ast.ColumnNames Sem.Eval Sem.Reduce Sem.Condition Ast.Clone Ast.GroupBy San.Sanitize Lex.Quote Sem.Regex Sem.RewriteFields Sem.SetTimeRange.
+  Val.Duration Parse.ExprTree Parse.Instr Parse.ParseExpr Parse.ParseStmts Ast.Printer Ast.PrinterStmts Parse.Params Ast.Privileges Ast.ColumnNames Sem.Eval Sem.Reduce Sem.Condition Ast.Clone Ast.GroupBy San.Sanitize Lex.Quote Sem.Regex Sem.RewriteFields Sem.SetTimeRange Conc.Footprint.
 
 Definition bad_request : sexp := L [A (-1)].
 
@@ -292,6 +292,7 @@ Definition dispatch1 (orc : oracles) (req : sexp) : sexp :=
           | Some c', Some ws' => se_list se_expr (set_time_ranges orc c' ws')
           | _, _ => bad_request
           end
+      | 31%nat, [] => se_table
       | 12%nat, [e] => match sd_expr e with Some e' => se_text (print_expr orc e') | None => bad_request end
       | _, _ => bad_request
       end
